@@ -86,6 +86,8 @@ def rule_lookup_checked(ctx):
             counts[suf] = counts.get(suf, 0) + 1
             if n.get('args'):
                 covered.setdefault(suf, set()).update(TM.fields_in(ctx.pv.eval(fn, n['args'][0], H.sym_env(fn), 0)))
+                # a lookup inside a helper: the name is whatever the helper's callers hand over
+                covered[suf].update(TM.fields_in(ctx.pv.eval(fn, n['args'][0], {}, 0)))
             inst = '%s/%s#%d' % (short(fn.path), role, ordn[suf])
             kind, detail = H.consumption(fn, n)
             loc = n.get('sp', '')
@@ -226,12 +228,16 @@ def rule_validators_dominate(ctx):
         # inside a `for` over all definitions / all selections
         cc = H.conditional_context(fn, n)
         kinds = [c[0] for c in cc]
-        if kinds and all(k in ('for', 'match') for k in kinds) and 'for' in kinds:
-            loop = [c[1] for c in cc if c[0] == 'for'][-1]
+        itn = H.iteration_of(fn, n)
+        if kinds and all(k in ('for', 'match', 'closure') for k in kinds) and itn is not None and itn[0] in ('for', 'try_for_each', 'try_fold', 'for_each'):
+            loop = H.iteration_node(fn, n)
             okl, _ = H.precedes(fn, loop, tail)
-            it_term = ctx.pv.eval(fn, loop['iter'], {}, 0)
+            if itn[0] != 'for':
+                # the iterator method's own Result must be propagated as well
+                okl = okl and H.consumption(fn, loop)[0] == 'propagated'
+            it_term = ctx.pv.eval(fn, itn[1], {}, 0)
             fields = TM.fields_in(it_term)
-            filt = _chain_methods(ctx, fn, loop['iter']) & {'filter', 'take', 'skip', 'take_while', 'skip_while', 'step_by', 'filter_map', 'rev_take'}
+            filt = _chain_methods(ctx, fn, itn[1]) & {'filter', 'take', 'skip', 'take_while', 'skip_while', 'step_by', 'filter_map', 'rev_take'}
             if okl and not filt and (fields & {'Query.selections', 'Document.definitions'}):
                 obs.append(ok('VALIDATE-ORDER', inst, 'applied to every element of %s before Ok(..)' % sorted(fields & {'Query.selections', 'Document.definitions'}), n.get('sp', '')))
             else:
@@ -430,22 +436,28 @@ def rule_typename_matrix(ctx):
     fn = ctx.fn('codegen', QMOD + '::validation::validate_typename_presence')
     if fn is None:
         return [bad('TYPENAME-MATRIX', 'floor', 'anchor-missing: validate_typename_presence not found')]
+    # the validator and the private helpers it is split into
+    from .rules_hir import callgraph
+    cg_ = callgraph(ctx)
+    family = [fn] + [f_ for f_ in (ctx.fn_by_key(k_) for k_ in sorted(cg_.reachable([fn.key])) if k_ != fn.key)
+                     if f_ is not None and not f_.from_macro and norm_path(f_.path).startswith(QMOD + '::validation')]
     # conditional Err returns guarded by a negated call of a workspace bool predicate
     guards = []
-    for n in fn.walk(lambda n: n['k'] == 'if'):
-        if not returns_err(n['then']):
-            continue
-        c = n['cond']
-        neg = False
-        while c.get('k') in ('unary', 'wrap'):
-            if c.get('k') == 'unary' and c.get('op') == '!':
-                neg = not neg
-            c = c['e']
-        if c.get('k') == 'call' and ctx.pv.local_fns(c.get('callee')) and neg:
-            guards.append((n, c))
+    for f_ in family:
+        for n in f_.walk(lambda n: n['k'] == 'if'):
+            if not returns_err(n['then']):
+                continue
+            c = n['cond']
+            neg = False
+            while c.get('k') in ('unary', 'wrap'):
+                if c.get('k') == 'unary' and c.get('op') == '!':
+                    neg = not neg
+                c = c['e']
+            if c.get('k') == 'call' and ctx.pv.local_fns(c.get('callee')) and neg:
+                guards.append((n, c, f_))
     roles = {}
-    for n, c in guards:
-        args = [ctx.pv.eval(fn, a, {}, 0) for a in c['args']]
+    for n, c, f_ in guards:
+        args = [ctx.pv.eval(f_, a, {}, 0) for a in c['args']]
         fields = set()
         for a in args:
             fields |= TM.fields_in(a)
@@ -461,9 +473,10 @@ def rule_typename_matrix(ctx):
                            'an abstract selection without __typename is turned into code that cannot pick a variant'))
     # both abstract kinds are covered where kinds are filtered
     pats = []
-    for n in fn.walk(lambda n: n['k'] == 'match'):
-        for a in n['arms']:
-            pats.append(repr(P.pat_summary(a['pat'])))
+    for f_ in family:
+        for n in f_.walk(lambda n: n['k'] == 'match'):
+            for a in n['arms']:
+                pats.append(repr(P.pat_summary(a['pat'])))
     txt = ' '.join(pats)
     for kind in ('Interface', 'Union'):
         cnt = txt.count('TypeId::' + kind)
